@@ -193,8 +193,10 @@ func (rs *runState) run(replay string, keep bool) int {
 	} else {
 		// 1. exhaustive design checks
 		if p.ModelJobs != nil {
-			for _, job := range p.ModelJobs(env) {
-				r, err := RunTLC(job)
+			mjobs := p.ModelJobs(env)
+			mres, merr := runTLCJobs(mjobs)
+			for i, job := range mjobs {
+				r, err := mres[i], merr[i]
 				if err != nil {
 					fail2("tlc %s: %v", job.Name, err)
 				}
@@ -209,8 +211,10 @@ func (rs *runState) run(replay string, keep bool) int {
 		// 2. behaviour generation
 		seen := map[string]bool{}
 		if p.GenJobs != nil {
-			for _, job := range p.GenJobs(env) {
-				r, err := RunTLC(job)
+			gjobs := p.GenJobs(env)
+			gres, gerr := runTLCJobs(gjobs)
+			for i, job := range gjobs {
+				r, err := gres[i], gerr[i]
 				if err != nil {
 					fail2("tlc %s: %v", job.Name, err)
 				}
@@ -463,6 +467,25 @@ func (rs *runState) run(replay string, keep bool) int {
 	rs.writeEvidence(0)
 	fmt.Printf("OK property=%s tier=%s traces_validated=%d known_findings=%d wall=%.1fs\n", p.ID, env.Tier, len(realised), len(known), time.Since(rs.start).Seconds())
 	return 0
+}
+
+// runTLCJobs runs independent TLC jobs a few at a time (JVM start dominates small jobs).
+func runTLCJobs(jobs []TLCJob) ([]*TLCResult, []error) {
+	res := make([]*TLCResult, len(jobs))
+	errs := make([]error, len(jobs))
+	sem := make(chan struct{}, 4)
+	var wg sync.WaitGroup
+	for i := range jobs {
+		wg.Add(1)
+		sem <- struct{}{}
+		go func(i int) {
+			defer wg.Done()
+			defer func() { <-sem }()
+			res[i], errs[i] = RunTLC(jobs[i])
+		}(i)
+	}
+	wg.Wait()
+	return res, errs
 }
 
 func safeDrive(p *Property, env *Env, b Behaviour) (t *Trace) {
